@@ -166,9 +166,28 @@ class Check:
         return io, mo
 
     def on_crash(self, op, cid, line, err, rc):
-        self.violations.append(Violation(
-            "crash:" + op, "the implementation aborted (sanitizer/assertion/timeout, rc=%s) on op %s" % (rc, op),
-            {"case": line, "stderr": err, "replay_cmd": "python3 /verif/check.py replay <this file>"}))
+        # does the case die on its own, or only after what the same process ran before it?  Shortest suffix of the
+        # history that reproduces the abort (at most three crashes per check are examined this way)
+        hist, need = C.HISTORY.get(line, []), None
+        self._crash_probes = getattr(self, "_crash_probes", 0) + 1
+        if self.bdir and line and self._crash_probes <= 3:
+            for k in [0, 1, 2, 4, 8, 16, 64, len(hist)]:
+                k = min(k, len(hist))
+                try:
+                    o, cr = C.run_impl(self.bdir, hist[len(hist) - k:] + [line], timeout=300)
+                except Exception:
+                    break
+                if any(c[1] == line for c in cr):
+                    need = hist[len(hist) - k:]
+                    break
+                if k == len(hist):
+                    break
+        rep = {"case": line, "stderr": err, "replay_cmd": "python3 /verif/check.py replay <this file>"}
+        what = "the implementation aborted (sanitizer/assertion/timeout, rc=%s) on op %s" % (rc, op)
+        if need:
+            rep["history_same_process"] = need
+            what += " after %d earlier call(s) in the same process (alone it does not)" % len(need)
+        self.violations.append(Violation("crash:" + op, what, rep))
 
     # ---------------------------------------------------------------- bookkeeping
     def sample(self, x):
